@@ -332,9 +332,13 @@ fn new_ctx(req: &Value) -> ExecutionContext {
     let mut ctx = if let Some(m) = req.get("mem_limit").and_then(|v| v.as_u64()) {
         let mut cfg = ExecutionConfig::default();
         cfg.memory_limit = m as usize;
-        if let Some(p) = req.get("spill_path").and_then(|v| v.as_str()) {
-            cfg.spill_path = PathBuf::from(p);
-        }
+        // every driver process gets a private spill directory: the engine's spill ids are per process,
+        // so two drivers sharing the default path would collide (a harness artefact, not a verdict)
+        cfg.spill_path = match req.get("spill_path").and_then(|v| v.as_str()) {
+            Some(p) => PathBuf::from(p),
+            None => PathBuf::from(std::env::var("QE_WORK").unwrap_or_else(|_| "/verif/work/driver".into()))
+                .join(format!("spill-{}", std::process::id())),
+        };
         if let Some(p) = req.get("spill_partitions").and_then(|v| v.as_u64()) {
             cfg.spill_partitions = p as usize;
         }
